@@ -73,7 +73,7 @@ Definition computeCounts (buf : list byte) (maxOnes : N) (final invert : bool) :
   let pcnt := (pcnt - (Z.of_N maxSyms - Z.of_N maxOnes - Z.of_N zeros))%Z in
   let '(cnts, pcnt) := if (pcnt <? 0)%Z then (pcnt :: cnts, 0%Z) else (cnts, pcnt) in
   let pcnt := (pcnt + (Z.of_N maxOnes - Z.of_N ones))%Z in
-  rev (pcnt :: cnts).
+  fast_rev (pcnt :: cnts).
 
 (* one run of [cnt] equal symbols; [pre_same]: previous symbol has the same
    sign as this run. Mirrors the switch in encodeBlock. *)
@@ -226,7 +226,7 @@ Definition decode_block : prog blockres :=
   let huffRange := 2 ^ huffLen in
   s <- loop 9 sym_body (mkSymst 0 false 0 255 [false]) ;;
   assert_p (N.of_nat (length (ss_bits s)) =? maxSyms) ECorrupted ;;;
-  let symbits := rev (ss_bits s) in
+  let symbits := fast_rev (ss_bits s) in
   let syms := bits_to_bytes symbits in           (* 33 bytes *)
   assert_p (ss_ones s =? huffRange) ECorrupted ;;;
   assert_p (nth 256 symbits false) ECorrupted ;;;
@@ -269,8 +269,8 @@ Record meta_result := mkMR {
 
 Definition meta_decode (input : list byte) : meta_result :=
   match run (decode_stream 40) (ast_init (bytes_to_bits input)) with
-  | Done (f, nb) s => mkMR None (rev (a_out s)) f nb ((a_pos s + 7) / 8)
-  | Fail e s => mkMR (Some e) (rev (a_out s)) FinalNil 0 ((a_pos s + 7) / 8)
+  | Done (f, nb) s => mkMR None (fast_rev (a_out s)) f nb ((a_pos s + 7) / 8)
+  | Fail e s => mkMR (Some e) (fast_rev (a_out s)) FinalNil 0 ((a_pos s + 7) / 8)
   end.
 
 (* ReverseSearch: last index i with (le32 data[i..i+4] & mask) = vals.
